@@ -40,23 +40,64 @@ fn is_sep_finding(_text: &str, _msg: &str) -> bool {
     false
 }
 
-/// "ok" | "err" | "panic: <message>" for one entry point
+fn panic_message(e: Box<dyn std::any::Any + Send>) -> String {
+    e.downcast_ref::<&str>().map(|x| x.to_string()).or_else(|| e.downcast_ref::<String>().cloned()).unwrap_or_default()
+}
+
+/// What a caller does with a returned error: Display, Debug and the `source` chain.  A panic here is outside the
+/// literal statement of C01 (parsing did return an error), so it is reported as MODEL-DIVERGENCE under its own name.
+fn render_error<E: std::error::Error>(err: &E) -> Option<String> {
+    let r = std::panic::catch_unwind(std::panic::AssertUnwindSafe(|| {
+        let mut n = format!("{err}").len() + format!("{err:?}").len() + format!("{err:#}").len();
+        let mut src = err.source();
+        let mut depth = 0;
+        while let Some(s) = src {
+            n += format!("{s}").len() + format!("{s:?}").len();
+            src = s.source();
+            depth += 1;
+            if depth > 64 {
+                break;
+            }
+        }
+        n
+    }));
+    r.err().map(panic_message)
+}
+
+fn outcome_of<T, E: std::error::Error>(r: Result<T, E>) -> String {
+    match r {
+        Ok(_) => "ok".into(),
+        Err(e) => match render_error(&e) {
+            None => "err".into(),
+            Some(msg) => format!("err!render: {msg}"),
+        },
+    }
+}
+
+/// "ok" | "err" | "err!render: <message>" (an error whose rendering panics) | "panic: <message>" for one entry point
 fn run_entry(entry: &str, text: &str) -> String {
     let r = std::panic::catch_unwind(|| match entry {
-        "program" => Program::from_str(text).is_ok(),
-        "instruction" => Instruction::from_str(text).is_ok(),
-        "expression" => Expression::from_str(text).is_ok(),
-        "memref" => MemoryReference::from_str(text).is_ok(),
-        "frame" => FrameIdentifier::from_str(text).is_ok(),
+        "program" => outcome_of(Program::from_str(text)),
+        "instruction" => outcome_of(Instruction::from_str(text)),
+        "expression" => outcome_of(Expression::from_str(text)),
+        "memref" => outcome_of(MemoryReference::from_str(text)),
+        "frame" => outcome_of(FrameIdentifier::from_str(text)),
         _ => unreachable!(),
     });
     match r {
-        Ok(true) => "ok".into(),
-        Ok(false) => "err".into(),
-        Err(e) => {
-            let msg = e.downcast_ref::<&str>().map(|x| x.to_string()).or_else(|| e.downcast_ref::<String>().cloned()).unwrap_or_default();
-            format!("panic: {msg}")
-        }
+        Ok(x) => x,
+        Err(e) => format!("panic: {}", panic_message(e)),
+    }
+}
+
+/// outcome class of a result string
+pub fn class_of(r: &str) -> &'static str {
+    if r.starts_with("panic") {
+        "panic"
+    } else if r.starts_with("err") {
+        "err"
+    } else {
+        "ok"
     }
 }
 
@@ -66,6 +107,9 @@ pub fn run_all(text: &str) -> Vec<(&'static str, String)> {
 
 fn record_panics(o: &mut Outcome, text: &str, res: &[(&'static str, String)]) {
     for (e, r) in res {
+        if let Some(msg) = r.strip_prefix("err!render: ") {
+            o.diverge(format!("panic while rendering the error of {e}::from_str({:?}): {msg}", text.chars().take(120).collect::<String>()));
+        }
         if r.starts_with("panic") {
             let mut v = Violation::new("panic", json!("ok or err"), json!(r))
                 .note(format!("{e}::from_str({:?})", text.chars().take(300).collect::<String>()));
@@ -566,7 +610,7 @@ pub fn replay(ctx: &Ctx, case: &Value) -> Outcome {
         record_panics(&mut o, &text, &res);
         if sure {
             for (e, r) in &res {
-                if !r.starts_with("panic") && case["exp"][*e].as_str() != Some(r.as_str()) {
+                if !r.starts_with("panic") && case["exp"][*e].as_str() != Some(class_of(r)) {
                     o.diverge(format!("{e}::from_str({text:?}) = {r}, model {}", case["exp"][*e]));
                 }
             }
@@ -714,6 +758,69 @@ fn mutate(r: &mut impl Rng, text: &str, pool: &[String]) -> String {
     t
 }
 
+/// Error paths with long and multi-byte context.  Every text fails to lex or to parse; the failure is placed after
+/// about 71 / 72 / 73 / 200 / 10 000 bytes of legal text on the same line (strings and comments, where any
+/// character is legal) made of 2-, 3- and 4-byte UTF-8 characters, with 0..7 ASCII bytes in front so that every
+/// alignment of the characters relative to a byte-oriented cut of the line occurs.  (text, lexable)
+fn error_context_texts() -> Vec<(String, bool)> {
+    let chars: [&str; 4] = ["é", "€", "💥", "aé€💥"];
+    // offending pieces: (piece, is a lexer error)
+    let offenders: [(&str, bool); 11] = [
+        ("$", true), ("\u{0}", true), ("é", true), ("💥x", true), ("\"open é", true), ("@", true), ("0x", true),
+        (")", false), ("1.5", false), ("NONBLOCKING X 0", false), ("ADD ro +1", false),
+    ];
+    let content = |pad: usize, ch: &str, bytes: usize| -> String {
+        let mut t = "a".repeat(pad);
+        while t.len() < bytes {
+            t.push_str(ch);
+        }
+        t
+    };
+    let mut out: Vec<(String, bool)> = vec![];
+    for (piece, is_lex) in offenders {
+        // no context at all, and the offending piece alone after blanks
+        out.push((piece.to_string(), !is_lex));
+        out.push((format!("X 0\n{piece}"), !is_lex));
+        for target in [71usize, 72, 73, 200] {
+            for pad in 0..8usize {
+                for ch in chars {
+                    let body = content(pad, ch, target.saturating_sub(12));
+                    let forms = [
+                        format!("PRAGMA n \"{body}\" {piece}"),                      // after a long string on the same line
+                        format!("PRAGMA n \"{body}\"{piece}"),                       // directly adjacent to the closing quote
+                        format!("DEFCAL X 0:\n    PRAGMA n \"{body}\" {piece}"),     // inside a body (indented line)
+                        format!("PRAGMA n \"first line\n{body}\" {piece}"),          // the line starts inside a string
+                        format!("SET-PHASE 0 \"{body}\" 1 {piece}\nX 0 # {body}"),   // more text after the failure
+                        format!("X 0 # {body}\n{piece}"),                            // after a long comment line
+                        format!("PRAGMA n \"{body}{ch}\"{ch}"),                      // a multi-byte character is the offender
+                    ];
+                    for (k, f) in forms.into_iter().enumerate() {
+                        out.push((f, !is_lex && k != 6));
+                    }
+                }
+            }
+        }
+    }
+    // end of input: unterminated string, dangling command, and a failure after / on a 10 kB line
+    for pad in 0..8usize {
+        for ch in chars {
+            for target in [71usize, 72, 73, 200] {
+                let body = content(pad, ch, target.saturating_sub(12));
+                out.push((format!("PRAGMA n \"{body}"), false));
+                out.push((format!("PRAGMA n \"{body}\" ADD"), true));
+                out.push((format!("DEFCAL X 0:\n    PRAGMA n \"{body}\"\n    MOVE ro"), true));
+                out.push((format!("PRAGMA n \"{body}\" DEFCAL X 0:"), true));
+            }
+            let long = content(pad, ch, 10_000);
+            out.push((format!("PRAGMA n \"{long}\" $"), false));
+            out.push((format!("PRAGMA n \"{long}\" )"), true));
+            out.push((format!("PRAGMA n \"{long}\"\nPRAGMA n \"{}\" $", content(pad, ch, 60)), false));
+            out.push((format!("X 0 # {long}\n    {ch}"), false));
+        }
+    }
+    out
+}
+
 pub fn drive(ctx: &Ctx) -> Summary {
     let n = ctx.arg_u64("n", 300);
     let max_tokens = ctx.arg_u64("max-tokens", 400) as usize;
@@ -738,32 +845,44 @@ pub fn drive(ctx: &Ctx) -> Summary {
     pool.dedup();
     let mut sum = Summary::default();
     let small: Vec<&(String, String)> = corpus.iter().filter(|(k, _)| k != "whole").collect();
-    let mut inputs: Vec<(String, bool)> = vec![(String::new(), false)];
-    // every fixture unmodified first (the whole bench file too), then mutations
+    // (text, mutated, error-context probe, log the token stream for TLC)
+    let mut inputs: Vec<(String, bool, bool, bool)> = vec![(String::new(), false, false, true)];
+    // every fixture unmodified first (the whole bench file too), then mutations, then the error-context family
     for (_, t) in &corpus {
-        inputs.push((t.clone(), false));
+        inputs.push((t.clone(), false, false, true));
     }
     for _ in 0..n {
         let (_, base) = small.choose(&mut rng).unwrap();
-        inputs.push((mutate(&mut rng, base, &pool), true));
+        inputs.push((mutate(&mut rng, base, &pool), true, false, true));
     }
-    for (text, mutated) in inputs {
+    let log_every = ctx.arg_u64("error-context-log-every", 40).max(1) as usize;
+    for (k, (t, _lexable)) in error_context_texts().into_iter().enumerate() {
+        inputs.push((t, false, true, k % log_every == 0));
+    }
+    for (text, mutated, is_probe, log) in inputs {
         let res = run_all(&text);
         let mut o = Outcome::ok(true);
         o.sub_evaluations = res.len() as u64;
         record_panics(&mut o, &text, &res);
-        if !mutated && text.len() < 100_000 && !text.is_empty() && res[0].1 != "ok" && res[2].1 != "ok" {
+        if !mutated && !is_probe && text.len() < 100_000 && !text.is_empty() && res[0].1 != "ok" && res[2].1 != "ok" {
             o.diverge(format!("fixture parses neither as a program nor as an expression: {:?}", text.chars().take(60).collect::<String>()));
         }
         if nesting_depth(&text) <= NEST_THRESHOLD {
             util::emit(&mut texts, &json!({"text": text}));
         }
-        let res_json: Value = Value::Object(res.iter().map(|(e, r)| (e.to_string(), json!(if r.starts_with("panic") { "panic" } else { r.as_str() }))).collect());
+        let res_json: Value = Value::Object(res.iter().map(|(e, r)| (e.to_string(), json!(class_of(r)))).collect());
         // a panic of the known `._` shape is reported (tagged) through the summary; its history is not logged, because a
         // rejection by trace validation cannot carry a finding id
         let known_panic = res.iter().any(|(_, r)| r.starts_with("panic") && is_sep_finding(&text, r));
+        if is_probe {
+            o.count("error_context_texts");
+            if res[0].1 == "ok" {
+                o.diverge(format!("an error-context text was accepted: {:?}", text.chars().take(80).collect::<String>()));
+            }
+        }
         match tokenize(&text) {
             Some(_) if known_panic => o.count("known_finding_not_logged"),
+            Some(_) if !log => o.count("token_streams_not_logged"),
             Some(toks) if toks.len() <= max_tokens => {
                 o.count("token_streams_for_tlc");
                 util::emit(&mut out, &json!({"ev": "reset"}));
